@@ -85,6 +85,8 @@ class R:
             name = self.take(n).decode('latin-1')
             if name in RESERVED:
                 raise Bad(f'non-canonical: reserved entrypoint {name!r} spelled out instead of its tag')
+            if not 1 <= n <= 31:
+                raise Bad('entrypoint name length')
             return name
         if t < len(RESERVED):
             return RESERVED[t]
